@@ -23,9 +23,17 @@ Proof.
   destruct (handle_from (t_resp b) p) as [[evH st] o]. reflexivity.
 Qed.
 
+(* the catch-all does not read the response object *)
+Lemma serve_no_path_fst a b r : fst (serve_no_path a r) = fst (serve_no_path b r).
+Proof.
+  unfold serve_no_path, catchall. cbn [fst e_head e_path].
+  destruct (q_head r); [reflexivity|]. destruct (utf8_encode _); reflexivity.
+Qed.
+
 Lemma history_independent app ts ts' r : fst (serve app ts r) = fst (serve app ts' r).
 Proof.
-  unfold serve, serve_gen. destruct (decode_path (q_raw r)) as [path|].
+  unfold serve, serve_gen. destruct (q_nopath r); [apply serve_no_path_fst|].
+  destruct (decode_path (q_raw r)) as [path|].
   - apply serve_decoded_fst; reflexivity.
   - apply serve_bad_path_fst; reflexivity.
 Qed.
@@ -48,9 +56,9 @@ Qed.
 
 (* the F11 variant (early return before the re-initialisation) is not history independent *)
 Definition leak_app : app_static := mkApp (fun _ _ => (mkProg [] [] (R404 None), [])) (fun _ => None) 3.
-Definition leak_req : request := mkReq 1 [47; 255]%N false false false (lit "'http://localhost/%C3%BF'") [] false.
+Definition leak_req : request := mkReq 1 [47; 255]%N false false false (lit "'http://localhost/%C3%BF'") [] false false.
 Definition leak_ts : tstate :=
-  mkT (Some (mkReq 0 (lit "/login") false false false (lit "'http://localhost/login?token=secret'") [] false))
+  mkT (Some (mkReq 0 (lit "/login") false false false (lit "'http://localhost/login?token=secret'") [] false false))
       (mkSt 200 (lit "200 OK") [] [(lit "sid", lit "sid=secret123")]) [([], None); ([], None); ([], None)].
 
 Lemma F11_variant_leaks :
@@ -109,9 +117,9 @@ Proof.
   destruct (handle_from (t_resp ts1) p) as [[evH st] o]. exists raised. split; reflexivity.
 Qed.
 
-Lemma t_req_serve rule app ts r : t_req (snd (serve_gen rule app ts r)) = Some r.
+Lemma t_req_serve rule app ts r : q_nopath r = false -> t_req (snd (serve_gen rule app ts r)) = Some r.
 Proof.
-  unfold serve_gen. destruct (decode_path (q_raw r)) as [path|]; [|reflexivity].
+  intros Hn. unfold serve_gen. rewrite Hn. destruct (decode_path (q_raw r)) as [path|]; [|reflexivity].
   unfold serve_decoded. cbn [t_req t_resp t_tb].
   destruct (a_beh app r st_init) as [p raised].
   destruct (handle_from st_init p) as [[evH st] o]. reflexivity.
@@ -119,7 +127,8 @@ Qed.
 
 Lemma serve_tb_ok app ts r : tb_ok (a_shared app) (t_tb ts) -> tb_ok (a_shared app) (t_tb (snd (serve app ts r))).
 Proof.
-  intros H. unfold serve, serve_gen. destruct (decode_path (q_raw r)) as [path|].
+  intros H. unfold serve, serve_gen. destruct (q_nopath r); [exact H|].
+  destruct (decode_path (q_raw r)) as [path|].
   - destruct (t_tb_decoded raise_shared app (mkT (Some r) st_init (t_tb ts)) r path) as [raised [-> _]].
     now apply fold_raise_ok.
   - exact H.
@@ -174,17 +183,26 @@ Proof.
 Qed.
 
 (* and what is alive belongs to the last request or to the last request that made a shared error raise *)
-Lemma alive_req_last app h r :
-  t_req (snd (run app (ts_fresh app) (h ++ [r]))) = Some r.
+Lemma run_snoc_state app r : forall h ts,
+  snd (run app ts (h ++ [r])) = snd (serve app (snd (run app ts h)) r).
 Proof.
-  generalize (ts_fresh app). induction h as [|x t IH]; intros ts; cbn [List.app]; rewrite run_cons; cbn [snd].
-  - unfold run. cbn [run_gen snd]. apply (t_req_serve raise_shared).
-  - apply IH.
+  induction h as [|x t IH]; intros ts; cbn [List.app]; rewrite run_cons; cbn [snd].
+  - reflexivity.
+  - rewrite IH. rewrite (run_cons app ts x t). reflexivity.
 Qed.
+
+Lemma alive_req_last app h r :
+  q_nopath r = false -> t_req (snd (run app (ts_fresh app) (h ++ [r]))) = Some r.
+Proof. intros Hn. rewrite run_snoc_state. now apply (t_req_serve raise_shared). Qed.
+
+(* a request without PATH_INFO does not reach request.__init__: the cells (and everything else) stay *)
+Lemma no_path_keeps_state app h r :
+  q_nopath r = true -> snd (run app (ts_fresh app) (h ++ [r])) = snd (run app (ts_fresh app) h).
+Proof. intros Hn. rewrite run_snoc_state. unfold serve, serve_gen. now rewrite Hn. Qed.
 
 (* the F12 variant: the chain of a shared error grows with every request that raises it *)
 Definition grow_app : app_static := mkApp (fun _ _ => (mkProg [] [] (R404 None), [(0, true)])) (fun _ => None) 1.
-Definition grow_req (i : nat) : request := mkReq i [47]%N false false false [] [] false.
+Definition grow_req (i : nat) : request := mkReq i [47]%N false false false [] [] false false.
 
 Lemma decode_slash : decode_path [47]%N = Some [47]%N.
 Proof. reflexivity. Qed.
@@ -192,7 +210,7 @@ Proof. reflexivity. Qed.
 Lemma F12_step ts i :
   t_tb (snd (serve_F12 grow_app ts (grow_req i))) = raise_shared_F12 i (t_tb ts) (0, true).
 Proof.
-  unfold serve_F12, serve_gen. cbn [q_raw grow_req]. rewrite decode_slash.
+  unfold serve_F12, serve_gen. cbn [q_raw q_nopath grow_req]. rewrite decode_slash.
   destruct (t_tb_decoded raise_shared_F12 grow_app (mkT (Some (grow_req i)) st_init (t_tb ts)) (grow_req i) [47]%N)
     as [raised [-> ->]]. reflexivity.
 Qed.
